@@ -59,3 +59,30 @@ Section Typing.
 
   Definition wt_query (q : query) : bool := forallb wt_seg q.
 End Typing.
+
+(* all index and slice integers of a query lie within [lo, hi] (RFC 9535 2.1: the I-JSON range by default) *)
+Section Range.
+  Variables lo hi : Z.
+  Definition zr (i : Z) : bool := (lo <=? i) && (i <=? hi).
+  Definition ozr (o : option Z) : bool := match o with Some i => zr i | None => true end.
+  Fixpoint ir_sel (s : sel) {struct s} : bool :=
+    match s with
+    | SIndex i => zr i
+    | SSlice a b c => ozr a && ozr b && ozr c
+    | SFilter e => ir_expr e
+    | _ => true
+    end
+  with ir_expr (e : expr) {struct e} : bool :=
+    match e with
+    | ELit _ => true
+    | ERel q | EAbs q => (fix go (q : list seg) : bool := match q with [] => true | g :: q' => ir_seg g && go q' end) q
+    | ECall _ args => (fix go (l : list expr) : bool := match l with [] => true | a :: l' => ir_expr a && go l' end) args
+    | ENot a => ir_expr a
+    | EAnd a b | EOr a b | ECmp _ a b => ir_expr a && ir_expr b
+    end
+  with ir_seg (g : seg) {struct g} : bool :=
+    match g with
+    | Child ss | Desc ss => (fix go (l : list sel) : bool := match l with [] => true | s :: l' => ir_sel s && go l' end) ss
+    end.
+  Definition ints_in_range (q : query) : bool := forallb ir_seg q.
+End Range.
